@@ -93,6 +93,46 @@ CHECKS = {
          "destination range, minimum -> minimum and maximum -> maximum, out-of-range input saturates, same type is the identity; widening and narrowing back reproduces every value (10 type pairs); size and "
          "component-count mismatches are rejected.",
     note="u8/u16 -> i32: the end point is read as the image of the source range (255 -> 255*2^23), not i32::MAX. f32 compared through ordered keys.", design="4/C17", technique=TECH),
+ "C01": dict(
+    text="Three links, each judged by TLC. (1) TraceCoeffs: the f64 coefficient tables the resizer really uses (read-only hook) for a lattice of one-axis geometries (integer/fractional/edge-flush crops, "
+         "7 filters, adaptive/fixed kernel size) have windows inside the kernel's support and the source (Geometry!WindowOK), sum to 1 within 2^-45, and every weight equals the documented kernel at the tap's exact "
+         "rational argument, normalised, within 2^-40 -- Box/Bilinear/CatmullRom/Mitchell as exact rational polynomials (Kernels.tla), Hamming/Gaussian/Lanczos3 against a certified interval table (KernelTable, mpmath) where all "
+         "arguments fall on its 1/64 grid; only zero-weight taps may be trimmed. (2) precision and integer coefficients equal FixedPoint!Precision16/32 and round-half-away of those weights. (3) TraceConv: every pass of "
+         "recorded resizes (13 types x back-ends x Convolution/Interpolation/SuperSampling m=1..3 x random/extreme/checkerboard/impulse contents; intermediate images dumped by hooks) is recomputed from the recorded pixels and "
+         "those tables: integer samples must be the nearest integer of the fixed-point sum (half a unit, either neighbour at a tie, clamped), I32 within 1/2, floats within 2^-22 relative (+2^-45 of the absolute mass); "
+         "SuperSampling's intermediate is the nearest-neighbour image; premultiply/divide per Alpha.tla. Design level: MC_FixedPoint, MC_Geometry, GeomLemmas!WindowInside.",
+    note="Transcendental kernel values off the 1/64 grid are not compared (windows, sum and quantisation still are). IEEE roundings are judged by exact dyadic intervals, not bit-exactly. The integer criterion is tied to "
+         "the fixed-point architecture (dumped coefficients).", design="4/C01", technique=TECH + " with exact Wide/dyadic arithmetic"),
+ "C02": dict(
+    text="MC_Backends: every chunking scheme found in the SSE4.1/AVX2 kernels (16/8/4/2/1, 5/1, 32/16/8/4/1, row blocks of 4 and 2) consumes every index exactly once for every length 0..70 and terminates. Conformance: "
+         "~3.5k (quick) cases covering every residue of width, kernel length and row count, all filters, custom kernels forcing other fixed-point precisions, alpha on/off, the four alpha operations, buffers flush against guard pages, "
+         "each executed on None / Sse4_1 / Avx2; TLC validates the pipeline of each run and the group memo with the statement's tolerance classes (integers exact via digests, 16-bit alpha divide and alpha-aware U16x2/U16x4 resize +-1, "
+         "floats within 4 ulp unless both results are below the cancellation threshold).",
+    note="NEON / WASM kernels cannot run on this host.", design="4/C02", technique=TECH),
+ "C03": dict(
+    text="Index arithmetic the unsafe code relies on is specified and checked: windows and nearest indices inside the source (MC_Geometry; GeomLemmas for all sizes < 2^16, refuted without the crop-inside precondition), temporary images "
+         "inside their buffers (Resizer!TempOK on every temp event), clip-table range (MC_FixedPoint, FixedLemmas incl. the normalised-window lemma), views inside parents (MC_Views), every call ends in Ok/Err (MC_Resizer). Conformance: "
+         "(A) windows of the real coefficient tables for a lattice + seeded geometries up to 2000 px; (B) ~3k boundary executions per build on the optimised and the debug-assertion build with buffers flush against PROT_NONE pages: "
+         "sizes 0/1, crops flush / sub-pixel / one ulp inside the edge / denormal / negative / NaN / infinite / f64::MAX, oversized and exact buffers, strided and typed views, all algorithms, custom kernels (sum|w| < 4: no panic; beyond: no crash), "
+         "long-lived resizers; panics, aborts and signals are trace data that TLC rejects; (C) the range of indices really used for the u8 clip table (hook) under adversarial contents.",
+    note="Memory safety is observed (guard pages, debug assertions), not proved; a read inside mapped memory of a neighbouring row of a strided parent is only seen for the last row. NEON/WASM not executable.",
+    design="4/C03", technique=TECH + "; Apalache lemmas; guard pages"),
+ "C08": dict(
+    text="Threading.tla specifies the band count over unbounded integers, SplitBands and the take/finish/join protocol over the implementation's events; MC_Threading explores all interleavings of band workers at small scope (no cell written twice, "
+         "complete at the join, source line = destination line + offset); BandLemmas: band tiling for all 1 <= parts <= size < 2^32, band count in 0..extent for all u32 shapes, and the wrapping-u32 area refuted (65,536 rows). Conformance: "
+         "each case runs in rayon pools of 1, 2, 3, 4, 7, 16, 32 threads (shapes 1xN / Nx1 up to 70,000, squares around the 2^14 area threshold, pools larger than the extent, all passes, one- and two-image alpha operations); TLC validates every "
+         "logged split plan and band begin/end event against Threading (each band exactly once, join before the next step), the pipeline, and the output bytes against the 1-thread run.",
+    note="OS schedules are sampled; exhaustive interleavings only in the model. Outputs compared via two 31-bit digests.", design="4/C08", technique=TECH + "; Apalache lemmas"),
+ "C10": dict(
+    text="FixedPoint!UnityBand is the exact condition on the integer coefficient sum S and precision p under which every constant 0..max is reproduced (MC_FixedPoint: iff at reduced depth; FixedLemmas!UniformIff8/16: full depth). Conformance: "
+         "(a) the quantised tables of the real normalisers (hook) for a lattice of geometries incl. extreme scales (kernel lengths up to 8192) x 7 filters x both kernel-size modes x 8/16-bit are checked window by window by TLC -- this covers "
+         "every component value at once; non-negative kernels must give non-negative coefficients; (b) ~800 constant images (all listed 8-bit values, extremes of the wider types, alpha at max) through 3 algorithms x back-ends: per-plane (min,max) = (v,v), floats within 1 ulp.",
+    note="", design="4/C10", technique=TECH + "; Apalache lemmas"),
+ "C18": dict(
+    text="MC_FixedPoint / FixedLemmas (MonotoneStep, RangeKept): with non-negative integer coefficients inside the unity band the accumulate/round/shift/clip pipeline is monotone in every sample and stays within [min,max] of the window; "
+         "C10's coefficient check shows the real tables of Box/Bilinear/Hamming/Gaussian are non-negative and inside the band. Conformance: ~1k executions with contents confined to sub-ranges touching 0 / max (negative for I32) for all types, "
+         "algorithms and back-ends: TLC checks destination (min,max) inside source (min,max) per component plane, and dst(A) <= dst(B) for ordered pairs A <= B (floats: 1 ulp slack).",
+    note="", design="4/C18", technique=TECH + "; Apalache lemmas"),
 }
 NA_REASON = "check not built yet (work in progress; DESIGN.md section 7 lists the build order)"
 
